@@ -12,7 +12,8 @@ EXPL = ("R02.1 response slot (provenance across closure captures): every call-li
         "cancellation) drops queued payloads (cancelling their callers) and the notifier. R02.3 the notifier is consumed "
         "only by notify(), which lies on the graceful path only. R02.4 no leak primitive in the crate. R02.5 every "
         "fallible internal result (ActorError / Canceled / SendError / DynResult) is propagated (`?`, returned) or "
-        "inspected; discarding idioms are an enumerated table.")
+        "inspected; discarding idioms are an enumerated table. R02.6 join takes the task handle out of its slot before waiting, "
+        "so a later join / consume resolves even if an earlier join future was abandoned.")
 
 LEAK_SUFFIX = ("::forget", "::leak", "::into_raw", "::into_raw_with_allocator", "::forget_unsized")
 ERR_TYPES = ("error::ActorError", "futures_channel::oneshot::Canceled", "futures_channel::mpsc::SendError", "TrySendError", "dyn core::error::Error")
@@ -171,6 +172,10 @@ def check_cfg(ctx, fx, cfg):
             bad = [s for s in sk if s["k"] in ("agg", "store", "ret", "yield", "unknown")] + [s for s in calls if s["t"].get("callee") != "context::StopNotifier::notify"]
             ctx.require(len(calls) >= 1 and not bad, "R02.3", inst + ":notifier-use", "the stop notifier must be consumed only by notify(): %s" % [(s["k"], s.get("t", {}).get("callee")) for s in bad], fn=f["def"], site=f["loc"])
     run_loops(ctx, fx, "R02.3", {"L3", "L6", "L11", "L13"})
+    # R02.6 join resolves: the join future takes the runtime handle out of its slot under the lock and releases the lock
+    # before it waits — an abandoned earlier join cannot block a later join / consume (shared with C17)
+    from props import c17
+    c17.check_join(ctx, fx, cfg, "R02.6")
     # R02.4 leak census
     leaks = [(f["def"], t["callee"], t["l"]) for f, bi, t in graph.all_calls(fx, is_leak)]
     ctx.require(not leaks, "R02.4", "no-leak-primitive@" + cfg, "leak primitive used (a leaked payload / receiver would leave callers hanging): %s" % leaks, site=leaks[0][2] if leaks else "crate", detail={"calls_scanned": sum(1 for _ in graph.all_calls(fx, lambda t: True)), "positive_control": "is_leak(core::mem::forget) holds"})
